@@ -311,7 +311,38 @@ func ZZC08Triples() {
 	v.Reach("C08/triples")
 }
 
+// ZZC08Item: a rule set is judged the same on an array item (and on an item of an array under a
+// property) as on a root value: 1..2 rules of the pool, every scalar and empty-container kind.
+func ZZC08Item() {
+	node := v.Choose(0, len(c08Nodes)-1)
+	v.Assume(c08Nodes[node].kind != gen.KArr) // the array template of c08Schema has its own item
+	k := v.Choose(1, 2)
+	var rules []c08Rule
+	prev := -1
+	for i := 0; i < k; i++ {
+		j := v.Choose(prev+1, len(c08Pool)-(k-i))
+		prev = j
+		v.Assume(c08Pool[j].name != "optional") // applies to object properties only
+		rules = append(rules, c08Pool[j])
+	}
+	rootText := c08Schema(node, false, rules, -1)
+	want := c08Check(rootText)
+	ann := string(rootText[len(c08Nodes[node].text):]) // " // {...}"
+	item := "[\n  " + c08Nodes[node].text + ann + "\n]"
+	v.Observe("root", rootText)
+	v.Observe("item", item)
+	v.Assert(c08Check(bs(item)) == want, "C08/verdict-differs-on-array-item")
+	nested := "{\n  \"list\": [\n    " + c08Nodes[node].text + ann + "\n  ]\n}"
+	v.Assert(c08Check(bs(nested)) == want, "C08/verdict-differs-on-array-item")
+	if want {
+		v.Reach("C08/item-accepted")
+	} else {
+		v.Reach("C08/item-rejected")
+	}
+}
+
 func init() {
+	ZZHarnesses["ZZC08Item"] = ZZC08Item
 	ZZHarnesses["ZZC08Triples"] = ZZC08Triples
 	ZZHarnesses["ZZC08Order"] = ZZC08Order
 	ZZHarnesses["ZZC08OrderFlags"] = ZZC08OrderFlags
